@@ -125,7 +125,7 @@ CHECKS.update({
         note=KERNEL_NOTE, technique="Lean 4 proof (loop invariant of the breakpoint search: derivative bookkeeping by Mathlib bilinear algebra, piecewise-linear path, strict decrease; merge-sort order, box invariants) + model/implementation differential on enumerated activity patterns + brute-force first-local-minimiser oracle",
         design_ref="DESIGN.md §4 C08"),
     "C09": dict(
-        text="subspace_point_units / subspace_units_nofactor / iteration_units / iteration_units_nofloor (the subspace point, and the composed iteration on a stored history, of the same problem in other units are the rescaled points). Theorems over Model/Subspace.lean: none_free, xbar_in_box and active_fixed (any arithmetic), alpha_star_feasible (ordered field: every step "
+        text="subspace_point_shift (Props/C09Shift, no hypothesis: subspaceMin on the input with x, x_c, lb, ub translated by one constant returns the translated point), subspace_point_units / subspace_units_nofactor / iteration_units / iteration_units_nofloor (the subspace point, and the composed iteration on a stored history, of the same problem in other units are the rescaled points). Theorems over Model/Subspace.lean: none_free, xbar_in_box and active_fixed (any arithmetic), alpha_star_feasible (ordered field: every step "
              "in [0, alpha*] keeps the point in the box, alpha* <= 1), smw_direction (Mathlib matrices, any field: the direction computed through the small "
              "2m x 2m system solves the reduced Newton system (theta I - W M W^T) d = -r, under M M^-1 = 1); Props/C09Model (ordered field): subspace_no_increase (a Newton step on the free variables truncated by 0 <= alpha <= 1 does not increase the model), descent_of_decrease, direction_descent, and code_direction_descent: for the direction the code computes (small system, selection matrix of the free set: newton_of_reduced, reduced_bmat) the search direction after a Cauchy step with strict model decrease satisfies g.d < 0; masked_smw (the full-dimension masked form the source computes) and, about the executable model subspaceMin itself (Props/C09Run, via a list <-> Fin n bridge): subspace_newton_point (x_bar = x_cp + alpha u exactly, 0 <= alpha <= 1, in the box, u zero on the variables on a bound and Newton on the free ones), subspace_model_no_increase, subspace_direction_descent — under SubCtx (exact middle-matrix product and small solve, c = W^T(x_cp - x) as C08 proves), witnessed by a concrete instance; gauss_solves / gauss_unique / regular_pivots (Props/C09Solve + Proofs/Gauss, GaussBridge): the model's elimination with partial pivoting returns THE solution whenever no pivot vanishes, whatever row is picked, and no pivot vanishes when the matrix is injective; subspace_newton_point_solved / subspace_model_no_increase_solved / subspace_direction_descent_solved (under the computable pivot condition SubCtxP) and subspace_newton_point_pd (sizes, Mm M^-1 = 1, c = W^T(x_cp - x) and a positive definite model only: the reduced matrix N is then injective) carry no assumption on any solve. Numerical equality with the dense Newton solve, "
              "model decrease and descent are decided by the differential (Lean Float model vs subspacemin.py vs dense solve) over every free/active partition "
